@@ -13,7 +13,6 @@ import (
 	"io"
 	"os"
 	"path/filepath"
-	"reflect"
 	"sort"
 	"strings"
 
@@ -94,15 +93,23 @@ func numFragHistories(env *runner.Env) int {
 func init() {
 	runner.Register(&runner.Prop{
 		ID: "C08",
-		Rule: "quick: all repo test files + 2 000 generated files, thorough: + 100 000 generated files; plus 7 giant files (ftyp, an mdat whose box size is 2^32-1, 2^32-2, 2^32-9 with a compact header or 2^32-1, 2^32, 2^32+16, 2^33+5 with a 64-bit header, then a uuid box) served by a virtual ReadSeeker (real bytes at both ends of the payload, zeros between) and judged, in lazy mode only, against the layout they were built with: box list, mdat Size/HeaderSize/PayloadAbsoluteOffset/StartPos, position of the box behind the mdat, File.Size, Encode = the header, ReadData/CopyData at both payload ends, fewer than 1 MiB read. One case = one file decoded twice (mp4.DecodeFile from a bytes.Reader: normal mode and WithDecodeMode(DecModeLazyMdat)). Files: every file of at most 512 KiB under the repo's testdata directories (progressive, fragmented, encrypted, init-only; files both modes reject are counted, not compared) " +
+		Rule: "quick: all repo test files + 2 000 generated progressive files + 600 generated fragmented histories (2 files each), thorough: + 100 000 progressive files + 20 000 fragmented histories; plus 7 giant files (ftyp, an mdat whose box size is 2^32-1, 2^32-2, 2^32-9 with a compact header or 2^32-1, 2^32, 2^32+16, 2^33+5 with a 64-bit header, then a uuid box) served by a virtual ReadSeeker (real bytes at both ends of the payload, zeros between) and judged, in lazy mode only, against the layout they were built with: box list, mdat Size/HeaderSize/PayloadAbsoluteOffset/StartPos, position of the box behind the mdat, File.Size, Encode = the header, ReadData/CopyData at both payload ends, File.Encode and File.EncodeSW (slice writer of 1 KiB) = ftyp + mdat header + uuid, fewer than 1 MiB read. One case = one file decoded twice (mp4.DecodeFile in normal mode from a bytes.Reader and with WithDecodeMode(DecModeLazyMdat) from the reader of the case, see below). Files: every file of at most 512 KiB under the repo's testdata directories (progressive, fragmented, encrypted, init-only; files both modes reject are counted, not compared) " +
 			"followed by generated progressive files (gen/prog.RandomTables, own serializer): 1..2 tracks, 1..48 samples, mdat payload about 0..4 KiB (budgets 8, 32, 96, 512, 4096 bytes), compact and forced 64-bit mdat headers, mdat before and after moov, free box, junk gaps, stco/co64, arbitrary chunk interleaving. " +
 			"Compared: acceptance, top-level box list, Size() of every box and of the file, reflect.DeepEqual of every non-mdat box, per-fragment moof equality for fragmented files, StartPos/LargeSize/HeaderSize/PayloadAbsoluteOffset of every mdat in both modes and against the reference walker, File.Info dumps at all:1; " +
 			"for every mdat: lazy Encode and EncodeSW = the original header bytes, header + CopyData(whole payload) = the original box; ReadData and CopyData in both modes for ALL (start,size>=1) ranges inside the payload when it has at most 96 bytes, otherwise all ranges that start in the first 3 or end in the last 3 payload bytes combined with boundary sizes plus 200 random ranges, expected = file[start:start+size], and the four most recent lazy ReadData results are held and must still equal the file after every later lazy call on the same box; " +
-			"ranges partly or wholly outside the payload: an error is fine, returned bytes must be the file's bytes at that range; the ReadSeeker handed to the data calls is a bytes.Reader or (1 case in 3) a reader that delivers 1..5 bytes per Read call. " +
+			"ranges partly or wholly outside the payload: an error is fine, returned bytes must be the file's bytes at that range. " +
+			"Readers (round 6): every case draws a primary io.ReadSeeker kind (weights /16) that serves the lazy decode and all lazy data calls: bytes.Reader 4, 1..5 bytes per Read 3 (data calls only), io.SectionReader over a blob with the file at base offset {1,7,1000} 2, a reader that returns its last bytes together with io.EOF 2, base-offset wrappers (file at offset {1,7,1000} inside a blob of other bytes with other bytes behind it; own Read/Seek, the storage's ReadAt/WriteTo are promoted and address the blob) embedding *bytes.Reader 2, *io.SectionReader 1, *os.File on a scratch file 1, plain *os.File 1; and every mdat of every file is additionally read through ALL other kinds on whole payload, first byte, last byte, payload minus first/last byte and 3 random ranges (ReadData + CopyData), every track through all other kinds for samples 1..n, n..n, 1..1 x work buffers {nil, 7, total+5}; counters reader:<kind> / <function> give the lazy calls per kind. " +
+			"Second family (round 6), generated fragmented files: gen/frag.Generate histories (1..3 tracks, up to 3x3 fragments of up to 8 samples, full/metadata-only/interval mdat modes, compact and 64-bit mdat headers, emsg/free/unknown extras, every 8th with sidx/mfra/styp layouts, 2 of 8 single-track) built through the fragment API (as-built file) and rewritten on the byte level by gen/frag.Reshape (5 of 6 fragments: 1..4 truns per traf, 1..3 trafs per track, run data permuted and/or separated by filler, filler between the mdat header and the first data byte and after the last, 1 in 4 with a 16-byte mdat header); decode flags 0 (5 of 8), DecISMFlag, DecStartOnMoof or both, the same in both modes. Both files run through everything above. " +
+			"Whole-file encodes (round 6): progressive files: File.Encode and File.EncodeSW (slice writer of File.Size() bytes) of both trees; fragmented files (repo and generated): a fresh pair of trees per mode, EncModeBoxTree and EncModeSegment, File.Encode and File.EncodeSW each. Judged mode against mode: the in-memory output is read with the reference walker, the lazy output must be exactly those bytes with the payload of every top-level mdat removed (so every other box is byte-identical, every lazy mdat is its header, nothing follows a header but the next box); one-sided errors/panics are violations, the moof trees after a segment-mode encode must still be DeepEqual (trun data offsets). Box level: Encode and EncodeSW of every non-mdat top-level box give the same bytes in both modes. " +
+			"Sample access in fragments (round 6): for single-traf single-trun fragments Fragment.GetSampleInterval in both modes for all intervals (at most 6 samples, else boundary + 6 random): same offset/size/time/samples, the lazy interval read with ReadData and CopyData = the file = the in-memory interval's Data, and for generated files = the samples the independent reader ref/frag finds; for every track of every fragment the in-memory Fragment.GetFullSamples against lazy ReadData/CopyData of each sample's range as located by ref/frag (covers multi-trun, multi-traf, permuted and gapped data). " +
 			"For progressive files with a reference expansion: File.CopySampleData for all sample intervals of tracks with at most 12 samples (boundary + 40 random otherwise) x work buffers {nil, 1, 2, 3, 7, 16, 4096, total+5} in lazy mode and {nil, 7} in memory mode = concatenation of the samples' bytes. " +
 			"Non-trivial = a file both modes accept that has an mdat with at least 2 payload bytes on which range comparisons ran (hash of the file bytes); evaluations = individual data calls and tree comparisons.",
 		Assumptions: []string{
-			"a ReadSeeker may return fewer bytes than asked for (io.Reader contract); the slow reader is used only for data calls, never for decoding",
+			"a ReadSeeker may return fewer bytes than asked for and may return its last bytes together with io.EOF (io.Reader contract); the slow reader is used only for data calls, never for decoding",
+			"the API asks for an io.ReadSeeker: only Read and Seek define the file. Other methods the value happens to have (ReadAt, WriteTo promoted from an embedded storage) may address something else and must not change the result",
+			"whole-file encodes are compared mode against mode, not against the input: segment-mode encoding leaves out top-level boxes outside init/segments and re-encoded boxes need not equal their input bytes (other properties); encode_memory_output_equals_input counts how often the in-memory output is the input, in which case the lazy output is the input without mdat payloads",
+			"a fragment whose moof points outside its mdat payload has no valid sample range: in-memory slicing fails there while lazy mode reports the range; counted, not compared",
+			"Fragment.GetFullSamples does not exist for a lazily decoded mdat (it needs mdat.Data); the lazy counterpart is GetSampleInterval/ref-located ranges + ReadData/CopyData",
 			"ranges outside the mdat payload are outside the property's domain: only 'no wrong bytes' is checked there, a panic there is recorded as coverage, not as a violation",
 			"an mdat with an empty payload is not 'lazy' for the library (IsLazy false); equality of the two modes is still required",
 		},
@@ -117,9 +124,24 @@ func init() {
 			if a.Counters["files_corpus_compared"] == 0 {
 				a.Note("no repo test file was accepted by both decode modes")
 			}
-			for _, k := range []string{"call:lazy/ReadData", "call:lazy/CopyData", "call:memory/ReadData", "call:memory/CopyData", "call:lazy/CopySampleData", "call:memory/CopySampleData", "call:lazy/Encode"} {
+			for _, k := range []string{"call:lazy/ReadData", "call:lazy/CopyData", "call:memory/ReadData", "call:memory/CopyData", "call:lazy/CopySampleData", "call:memory/CopySampleData", "call:lazy/Encode",
+				"note:encode_pairs_equal:progressive/File.Encode", "note:encode_pairs_equal:progressive/File.EncodeSW", "note:encode_pairs_equal:fragmented-segment/File.Encode", "note:encode_pairs_equal:fragmented-segment/File.EncodeSW",
+				"note:encode_pairs_equal:fragmented-boxtree/File.Encode", "note:encode_pairs_equal:fragmented-boxtree/File.EncodeSW", "note:frag_files_reshaped", "note:frag_reshaped_single_trun_with_lead_gap", "note:frag_sample_intervals_compared", "note:frag_full_samples_compared"} {
+				if len(k) > 5 && k[:5] == "note:" {
+					if a.Counters[k[5:]] == 0 {
+						a.Note("%s is 0", k[5:])
+					}
+					continue
+				}
 				if a.Counters[k] == 0 {
 					a.Note("%s was never evaluated", k[5:])
+				}
+			}
+			for _, kind := range readerKindNames {
+				for _, fn := range []string{"ReadData", "CopyData", "CopySampleData"} {
+					if a.Counters["reader:"+kind+" / "+fn] == 0 {
+						a.Note("lazy %s was never called through reader kind %q", fn, kind)
+					}
 				}
 			}
 		},
@@ -337,7 +359,7 @@ func (s *state) check() {
 			mdats = append(mdats, mdatPair{mm, ml, nd})
 			continue
 		}
-		if !reflect.DeepEqual(bm, bl) {
+		if !sameTree(bm, bl) {
 			c.Violation("tree/box-differs/"+bm.Type(), fmt.Sprintf("%s: %s (child %d) decodes to different structures in the two modes", s.name, bm.Type(), i), s.detail(nil))
 		}
 	}
@@ -353,7 +375,7 @@ func (s *state) check() {
 				}
 				for fi := range a.Fragments {
 					x, y := a.Fragments[fi], z.Fragments[fi]
-					if x.StartPos != y.StartPos || !reflect.DeepEqual(x.Moof, y.Moof) || (x.Mdat == nil) != (y.Mdat == nil) {
+					if x.StartPos != y.StartPos || !sameTree(x.Moof, y.Moof) || (x.Mdat == nil) != (y.Mdat == nil) {
 						c.Violation("tree/fragment-differs", fmt.Sprintf("%s: segment %d fragment %d differs between the modes", s.name, si, fi), s.detail(nil))
 					} else if x.Mdat != nil && (x.Mdat.StartPos != y.Mdat.StartPos || x.Mdat.Size() != y.Mdat.Size()) {
 						c.Violation("tree/fragment-mdat", fmt.Sprintf("%s: segment %d fragment %d mdat StartPos %d/%d Size %d/%d", s.name, si, fi, x.Mdat.StartPos, y.Mdat.StartPos, x.Mdat.Size(), y.Mdat.Size()), s.detail(nil))
@@ -436,8 +458,9 @@ func rangeClass(start, size, ps, pe int) string {
 }
 
 // dataCall performs one ReadData/CopyData call and compares with the file.
-// valid tells whether the range lies inside the payload.
-func (s *state) dataCall(mode, fn string, m *mp4.MdatBox, rs io.ReadSeeker, start, size int, cls string, valid bool) {
+// valid tells whether the range lies inside the payload. It returns true when
+// the call returned the file's bytes of a valid range.
+func (s *state) dataCall(mode, fn string, m *mp4.MdatBox, rs io.ReadSeeker, start, size int, cls string, valid bool) bool {
 	c, b := s.c, s.b
 	var got []byte
 	var err error
@@ -463,7 +486,7 @@ func (s *state) dataCall(mode, fn string, m *mp4.MdatBox, rs io.ReadSeeker, star
 		c.Count("outside_range_calls", 1)
 		if pi != nil {
 			c.Seen("outside_range_panic", mode+"/"+fn+"/"+pi.Class)
-			return
+			return false
 		}
 		if err == nil {
 			inFile := start >= 0 && start+size <= len(b)
@@ -475,25 +498,25 @@ func (s *state) dataCall(mode, fn string, m *mp4.MdatBox, rs io.ReadSeeker, star
 		} else {
 			c.Seen("outside_range_result", mode+"/"+fn+"/error")
 		}
-		return
+		return false
 	}
-	key := mode + "/" + fn + "/" + cls
+	key := mode + "/" + fn + "/" + s.readerKeyClass(mode, cls)
 	if pi != nil {
 		d := det()
 		d["stack"] = pi.Stack
 		c.Violation(key+"/panic/"+pi.TopFrame, fmt.Sprintf("%s %s(%d,%d) panics: %s (%s)", mode, fn, start, size, pi.Value, s.name), d)
-		return
+		return false
 	}
 	if err != nil {
 		c.Violation(key+"/error", fmt.Sprintf("%s-mode %s(start=%d,size=%d) fails with %q for a range inside the mdat payload [%d,%d) (%s)", mode, fn, start, size, err, m.PayloadAbsoluteOffset(), int(m.PayloadAbsoluteOffset())+int(m.Size()-m.HeaderSize()), s.name), det())
-		return
+		return false
 	}
 	if !bytes.Equal(got, b[start:start+size]) || (n >= 0 && n != int64(size)) {
 		c.Violation(key+"/wrong-bytes", fmt.Sprintf("%s-mode %s(start=%d,size=%d) returns %d bytes (n=%d) that differ from file[%d:%d] (%s)", mode, fn, start, size, len(got), n, start, start+size, s.name), det())
-		return
+		return false
 	}
 	if mode != "lazy" {
-		return
+		return true
 	}
 	// a result handed out earlier stays the caller's: later calls on the same box must not change it
 	// (in-memory results are views of the payload and never change)
@@ -512,6 +535,7 @@ func (s *state) dataCall(mode, fn string, m *mp4.MdatBox, rs io.ReadSeeker, star
 		s.heldNext++
 		c.Count("lazy_results_held_across_later_calls", 1)
 	}
+	return true
 }
 
 func (s *state) checkMdat(mi int, mm, ml *mp4.MdatBox, nd *boxwalk.Node) bool {
@@ -777,6 +801,16 @@ func (s *state) checkSamples(fm, fl *mp4.File) {
 	}
 }
 
+// readerKeyClass is the class part of a finding key: lazy calls through the
+// reader that returns its last bytes together with io.EOF get a class of their
+// own (a caller that drops those bytes is one finding, whatever the range).
+func (s *state) readerKeyClass(mode, cls string) string {
+	if mode == "lazy" && s.rsKind == rkEOF {
+		return "reader-returns-last-bytes-with-EOF"
+	}
+	return cls
+}
+
 // withOtherReaders runs f once for every reader kind except the primary one of
 // the case, with s.rs/s.rsK switched to it.
 func (s *state) withOtherReaders(f func()) {
@@ -829,7 +863,7 @@ func (s *state) copySamples(mode string, f *mp4.File, trak *mp4.TrakBox, rs io.R
 	case wsN >= len(want):
 		wk = "ws>=data"
 	}
-	key := mode + "/CopySampleData/" + wk + "/" + icls
+	key := mode + "/CopySampleData/" + wk + "/" + s.readerKeyClass(mode, icls)
 	det := func() map[string]interface{} {
 		var lay []string
 		for nr := a; nr <= z && nr < a+20; nr++ {
